@@ -382,6 +382,10 @@ func sigKey(v Violation) string {
 		marker = " [overtaken]"
 		m = m[:i]
 	}
+	if i := strings.Index(m, " [off-chain link on the last block of a full segment"); i >= 0 {
+		marker = " [segment boundary]"
+		m = m[:i]
+	}
 	m = brRe.ReplaceAllString(m, "[..]")
 	m = cidRe.ReplaceAllString(m, "CID")
 	if len(m) > 160 {
